@@ -84,3 +84,39 @@ fn c16_sync_fold_step_refines_pick() {
 fn c16_async_fold_step_refines_pick() {
     check_step(step_async);
 }
+
+// ---------------------------------------------------------------------------------------------
+// Whole-function variant (bounded): the complete body of Dht::get_mutable_most_recent, extracted on
+// every run with the one expression `self.get_mutable(public_key, salt, None)` replaced by
+// `items.into_iter()`. Independent of how the fold is written (loop, iterator adapter, ...).
+// ---------------------------------------------------------------------------------------------
+include!(concat!(env!("VERIF_GEN"), "/c16_whole.rs"));
+
+#[kani::proof]
+#[kani::unwind(6)]
+fn c16_sync_whole_function_returns_the_maximum() {
+    let s: [i64; 2] = kani::any();
+    let v: [u8; 2] = kani::any();
+    let items = vec![item(s[0], 1, [v[0], 0]), item(s[1], 1, [v[1], 0])];
+    let out = whole_sync(items);
+    let second = s[1] > s[0] || (s[1] == s[0] && v[1] > v[0]);
+    let (ws, wv) = if second { (s[1], v[1]) } else { (s[0], v[0]) };
+    match &out {
+        Some(o) => assert!(o.seq() == ws && o.value().len() == 1 && o.value()[0] == wv,
+            "C16: the item with the highest seq, ties broken by the greater value, whatever the arrival order"),
+        None => assert!(false, "C16: None only if nothing was delivered"),
+    }
+    kani::cover!(s[0] == s[1] && v[0] > v[1], "tie on seq decided by value, first arrival wins");
+    kani::cover!(s[1] > s[0], "ascending arrival");
+    core::mem::forget(out);
+}
+
+#[kani::proof]
+#[kani::unwind(6)]
+fn c16_sync_whole_function_none_iff_nothing_delivered() {
+    let out = whole_sync(Vec::new());
+    assert!(out.is_none(), "C16: None iff nothing was delivered");
+    let one = whole_sync(vec![item(kani::any(), 1, [kani::any(), 0])]);
+    assert!(one.is_some());
+    core::mem::forget(one);
+}
